@@ -41,6 +41,14 @@ pub struct Workload {
     /// bit (j % 64): block j is obtained with calloc instead of malloc
     #[serde(default)]
     pub zeroed: u64,
+    /// long-lived blocks (size, position): before the first round one extra pass allocates the round's
+    /// blocks with their sizes scaled to `setup_scale` percent and, after block (position % n), this
+    /// block; the pass's own blocks are then freed, the long-lived ones stay until the end. The rounds
+    /// thus run on a heap whose free space is cut into holes by allocations that never go away.
+    #[serde(default)]
+    pub keep: Vec<(u16, u16)>,
+    #[serde(default)]
+    pub setup_scale: u8,
 }
 
 const MIB: usize = 1 << 20;
@@ -55,8 +63,17 @@ pub fn round_total(w: &Workload) -> usize {
     w.blocks.iter().map(|b| b.0).sum::<usize>() + w.resize.iter().map(|r| r.1.max(1)).sum::<usize>()
 }
 
+/// What the long-lived blocks and the holes of the set-up pass add to the demand.
+pub fn setup_total(w: &Workload) -> usize {
+    if w.keep.is_empty() {
+        return 0;
+    }
+    let scale = w.setup_scale.clamp(25, 200) as usize;
+    w.keep.iter().map(|k| k.0.max(1) as usize).sum::<usize>() + w.blocks.iter().map(|b| (b.0 * scale / 100).max(1)).sum::<usize>()
+}
+
 pub fn bound(w: &Workload) -> usize {
-    4 * (round_total(w) + MIB)
+    4 * (round_total(w) + setup_total(w) + MIB)
 }
 
 /// Rounds needed so that losing one smallest chunk per round crosses the bound.
@@ -155,6 +172,30 @@ pub fn run_workload(w: &Workload, op_budget: u64) -> Result<RunStats, Failure> {
     let mut max_peak = 0usize;
     let mut result = Ok(());
     let mut done_rounds = 0u64;
+    // set-up pass: long-lived blocks between holes (see `Workload::keep`)
+    let mut kept: Vec<*mut u8> = Vec::new();
+    if !w.keep.is_empty() {
+        let scale = w.setup_scale.clamp(25, 200) as usize;
+        for j in 0..n {
+            let (size, al) = w.blocks[j];
+            let p = unsafe { a.malloc((size * scale / 100).max(1), 1usize << al.min(13)) };
+            ptrs[j] = p;
+            for &(ks, pos) in &w.keep {
+                if pos as usize % n == j {
+                    let q = unsafe { a.malloc(ks.max(1) as usize, 8) };
+                    if !q.is_null() {
+                        kept.push(q);
+                    }
+                }
+            }
+        }
+        for &k in &order {
+            if !ptrs[k].is_null() {
+                unsafe { a.free(ptrs[k]) };
+                ptrs[k] = core::ptr::null_mut();
+            }
+        }
+    }
     'rounds: for r in 0..rounds {
         let mut peak = 0usize;
         for j in 0..n {
@@ -315,6 +356,9 @@ pub fn check_workload(ctx: &Ctx, w: &Workload) -> CaseResult {
         rep.class_if(grow, "realloc-grows");
     }
     rep.class_if(w.free_mode >= 2, "shuffled-free-order");
+    rep.class_if(!w.keep.is_empty(), "long-lived-blocks-between-holes");
+    rep.class_if(!w.keep.is_empty() && w.setup_scale < 100, "holes-smaller-than-the-requests");
+    rep.class_if(!w.keep.is_empty() && w.setup_scale > 100, "holes-larger-than-the-requests");
     rep.class_if(!st.full_sensitivity, "low-sensitivity");
     rep.class_if(st.full_sensitivity, "full-sensitivity");
     rep.class_if(st.rounds >= 10_000, "10k+rounds");
@@ -364,8 +408,10 @@ pub fn workload_strategy() -> impl Strategy<Value = Workload> {
         1 => (any::<u16>(), 5000usize..(300 << 10), any::<bool>()),
     ];
     let resizes = prop_oneof![2 => Just(vec![]), 3 => prop::collection::vec(rel, 1..12)];
-    (blocks, prop::collection::vec((any::<u16>(), any::<u16>()), 0..8), any::<u64>(), 0u8..3, placement, resizes, prop_oneof![2 => Just(0u64), 1 => any::<u64>()])
-        .prop_map(|(blocks, early_free, free_seed, free_mode, placement, rel, zeroed)| {
+    let keep = prop_oneof![3 => Just(vec![]), 2 => prop::collection::vec((prop_oneof![3 => 16u16..512, 1 => 512u16..8192], any::<u16>()), 1..7)];
+    let scale = prop::sample::select(vec![100u8, 75, 60, 50, 130, 150, 200]);
+    (blocks, prop::collection::vec((any::<u16>(), any::<u16>()), 0..8), any::<u64>(), 0u8..3, placement, resizes, prop_oneof![2 => Just(0u64), 1 => any::<u64>()], (keep, scale))
+        .prop_map(|(blocks, early_free, free_seed, free_mode, placement, rel, zeroed, (keep, setup_scale))| {
             let n = blocks.len();
             let mut cur: Vec<usize> = blocks.iter().map(|b| b.0).collect();
             let mut resize = Vec::new();
@@ -375,7 +421,7 @@ pub fn workload_strategy() -> impl Strategy<Value = Workload> {
                 cur[i] = new;
                 resize.push((k, new));
             }
-            Workload { blocks, early_free, free_seed, free_mode, placement, resize, zeroed }
+            Workload { blocks, early_free, free_seed, free_mode, placement, resize, zeroed, keep, setup_scale }
         })
 }
 
